@@ -33,8 +33,8 @@ PLAN = {
         "parts": [{"engine": "fwsim", "quick": 80000, "thorough": 4000000}],
         "nontrivial": ">=1 /localhost packet was offered while a non-local face existed",
         "fault_note": "network faults are scripted by the scenario: lost Data (Interest expires), duplicated Data, Interests re-entering on another face with the same nonce (loop), tokens echoed on the wrong face; endpoint fault: face teardown",
-        "components": {"real": ["fw/fw Thread.Run loop and pipelines", "fw/fw best-route and multicast strategies", "fw/table PitCsTree + CsLRU + DeadNonceList (own timers on the bubble clock)", "fw/table FIB (nametree or hashtable)", "fw/table NetworkRegion", "std/ndn/spec_2022 packet codec"], "stub": ["faces (recording dispatch.Face with scope/link type)", "peers (scripted by the scenario)", "link service (packets enter at the forwarding-thread queue)"]},
-        "assumptions": ["single forwarding thread (thread id 0); multi-thread dispatch is exercised by facesim/mgmtsim"],
+        "components": {"real": ["fw/fw Thread.Run loop and pipelines", "fw/fw best-route and multicast strategies", "fw/table PitCsTree + CsLRU + DeadNonceList (own timers on the bubble clock)", "fw/table FIB (nametree or hashtable)", "fw/table NetworkRegion", "std/ndn/spec_2022 packet codec", "fw/face MakeUnicastTCPTransport: scope classification of outgoing TCP faces from the remote address (40% of point-to-point faces take their forwarder-side scope from it)"], "stub": ["faces (recording dispatch.Face with link type; scope given by the scenario, or by the real TCP transport constructor)", "scope classification of accepted TCP, UDP, Unix and WebSocket transports (their constructors need real sockets)", "peers (scripted by the scenario)", "link service (packets enter at the forwarding-thread queue)"]},
+        "assumptions": ["single forwarding thread (thread id 0); multi-thread dispatch is exercised by facesim/mgmtsim", "which peers count as non-local: everything but loopback addresses (127.0.0.0/8, ::1)"],
     },
     "C01": {
         "parts": [{"engine": "fwsim", "quick": 100000, "thorough": 5000000}],
@@ -61,8 +61,8 @@ PLAN = {
 PLAN["C20"] = {
     "parts": [{"engine": "enginesim", "quick": 500000, "thorough": 30000000}],
     "nontrivial": ">=2 Interests were pending simultaneously and >=2 kinds of result (Data, Nack, timeout) occurred",
-    "fault_note": "the scenario decides every interleaving of Express, Data/Nack arrival, 'fire the k-th due timer' and clock advance; network faults = Data that never comes (timeout), late Data after the deadline, duplicated Data, Nacks for names with and without a pending Interest; the face recycles its receive buffer after each callback",
-    "components": {"real": ["std/engine/basic Engine (Express, onPacket, onData, onNack, timeout closures, handlers, Reply)", "std/engine/basic NameTrie", "std/ndn/spec_2022 codec"], "stub": ["face (SimFace implementing std/engine/face.Face)", "timer (SimTimer implementing ndn.Timer: event heap, scenario-chosen firing order)"]},
+    "fault_note": "the scenario decides every interleaving of Express, Data/Nack arrival, 'fire the k-th due timer' and clock advance (on the dummy and production timers every due timer fires on each advance); network faults = Data that never comes (timeout), late Data after the deadline, duplicated Data, Nacks for names with and without a pending Interest; the face recycles its receive buffer after each callback",
+    "components": {"real": ["std/engine/basic Engine (Express, onPacket, onData, onNack, timeout closures, handlers, Reply)", "std/engine/basic NameTrie", "std/ndn/spec_2022 codec", "std/engine/dummy Timer and DummyFace (30% of runs: the engine runs on the repository's own virtual-clock timer and dummy face)", "std/engine/basic Timer (1% of runs: production timer on a synctest bubble clock, timeouts on timer goroutines)"], "stub": ["face (SimFace implementing std/engine/face.Face; 70% of runs)", "timer (SimTimer implementing ndn.Timer: event heap, scenario-chosen firing order; 69% of runs)"]},
     "assumptions": ["Express is not called re-entrantly from inside a result callback (the engine holds its PIT lock there)", "a Nack is allowed, not required, to resolve the Interests of its name"],
 }
 PLAN["C11"] = {
@@ -98,7 +98,7 @@ PLAN["C17"] = {
 PLAN["C16"] = {
     "parts": [{"engine": "schedsim", "quick": 40000, "thorough": 3000000}],
     "nontrivial": ">=1 task was parked inside a RIB mutator while another task ran, or the scenario's release order decided more than 4 scheduling points",
-    "fault_note": "schedule fault = which parked task is released at each yield point (before every FIB lock acquisition, between the steps of face removal, between a lookup's return and the use of its result); endpoint fault = face teardown racing with registrations and lookups",
+    "fault_note": "schedule fault = which parked task is released at each yield point (before every FIB/RIB lock acquisition, inside every critical section - where the hook also probes that the lock the section needs is really held, and on arrival at a lock whether it is already held: re-entrancy - between the steps of face removal, between a lookup's return and the use of its result); endpoint fault = face teardown racing with registrations and lookups",
     "components": {"real": ["fw/table RibTable (AddEncRoute, RemoveRouteEnc, CleanUpFace)", "fw/table FibStrategyTree / FibStrategyHashTable incl. their RWMutex", "fw/face Table.Remove", "fw/dispatch face map"], "stub": ["the threads themselves: management thread, face send goroutines and forwarding threads are represented by simulated tasks that issue the same table calls"]},
     "assumptions": ["memory races between two yield points that change no observable result are not visible to a one-at-a-time scheduler (the Go race detector cannot be combined with it)", "porcupine verdict Unknown (time-out) is counted, never reported"],
     "technique": "deterministic simulation: cooperative seeded scheduler over real goroutines parked at lock/yield hooks, recorded history checked for linearizability with porcupine against a sequential reference model",
@@ -106,7 +106,7 @@ PLAN["C16"] = {
 PLAN["C15"] = {
     "parts": [{"engine": "objsim", "quick": 8000, "thorough": 400000}],
     "nontrivial": "the fetched object had >=2 segments and >=1 segment Data arrived out of order or only after a retransmission",
-    "fault_note": "network faults between consumer and producer: Interest/Data drop (within and beyond the 3-retry budget), delay (incl. beyond the Interest lifetime), duplication; reordering arises from delays; versions published in arbitrary order; name slices with spare capacity; both stores",
+    "fault_note": "network faults between consumer and producer: Interest/Data drop (within and beyond the 3-retry budget), delay (incl. beyond the Interest lifetime), duplication; reordering arises from delays; versions published in arbitrary order; name slices with spare capacity; both stores; process faults: the producer restarts (graceful close, or crash = the on-disk store file as it is at that instant is what the next incarnation opens; the in-memory store is lost) before or during a fetch; store transactions (begin/commit/rollback) with removals issued while a transaction is open",
     "components": {"real": ["std/object Client (run loop goroutine, Produce, Consume, round-robin segment fetcher, ExpressR retry)", "std/object MemoryStore and BoltStore (real bbolt file under TMPDIR, removed after the run)", "std/engine/basic Engine x2 with its real Timer on the bubble clock", "std/ndn/rdr_2024 metadata codec"], "stub": ["faces (SimFace)", "the network/forwarder between the two engines (scripted hub)"]},
     "assumptions": ["a transmission dropped, or delayed to within 10% of the Interest lifetime, costs its name one of four attempts; a fetch may fail only if some name lost four", "faces do not recycle receive buffers (none in the repository does)", "the store interface's Get(prefix) is specified as 'newest Data wire with the given prefix'; names that are both a packet and a prefix of packets are not generated"],
 }
@@ -141,7 +141,7 @@ ENGINES = [
     {"name": "rxsim", "path": "sim/facesim/rx.go", "serves_properties": ["C04"], "kind_free_text": "hostile link (structure-aware corruption) in front of the real forwarder receive path (link service, reassembly, dispatch, forwarding threads) and the application engine"},
     {"name": "linksim", "path": "sim/facesim/link.go", "serves_properties": ["C10"], "kind_free_text": "two real link services joined by a simulated datagram link that permutes, drops and duplicates frames"},
     {"name": "streamsim", "path": "sim/facesim/stream.go", "serves_properties": ["C11"], "kind_free_text": "scripted stream socket (chunking, transient errors, EOF) under the real stream framing loops"},
-    {"name": "enginesim", "path": "sim/enginesim", "serves_properties": ["C20"], "kind_free_text": "real application engine on a simulated face and a simulated timer (event heap); scenario-chosen interleaving of arrivals and timer firings"},
+    {"name": "enginesim", "path": "sim/enginesim", "serves_properties": ["C20"], "kind_free_text": "real application engine on a simulated face and timer (event heap; scenario-chosen interleaving of arrivals and timer firings), on the repository's dummy timer/face, or on its production timer inside a synctest bubble"},
     {"name": "tablesim", "path": "sim/tablesim", "serves_properties": ["C05", "C06", "C08"], "kind_free_text": "operation histories (with face teardown injected) against the real FIBs and RIB; reference models; shrinking; replay"},
     {"name": "fwsim", "path": "sim/fwsim", "serves_properties": ["C01", "C02", "C07", "C08", "C09"], "kind_free_text": "one real forwarding thread in a synctest bubble (fake clock, quiescence stepping), simulated faces and scripted peers, reference PIT/CS/FIB model"},
 ]
